@@ -271,6 +271,10 @@ pub fn gen_case(prop: &str, seed: u64) -> Case {
         "C08" | "C09" | "C10" => gen_sched(prop, &mut case, &mut wrng, &mut krng, &mut knobs, avoid),
         _ => {}
     }
+    // C15: one run in forty is the COPY FROM scenario (real blocking pool, see run.rs)
+    if prop == "C15" && krng.chance(1, 40) {
+        case.params.insert("copy_scenario".into(), 1);
+    }
     if std::env::var("RLSIM_TIER").as_deref() == Ok("thorough") {
         match prop {
             // every crash index, every byte of manifest writes
